@@ -82,7 +82,9 @@ CvTags ==
           THEN {<<"C09", "not-monotone">>} ELSE {})
   \* "kept by the hysteresis window": the previous note is reported although the memoryless rule
   \* would not report it for this input (or the input is certainly inside the window)
-  \cup C19Tags(n, e.sk, e.fq, e.fq, IF inrange THEN e.eu ELSE Min2(e.eu, e.ec), inrange, ~hist,
+  \* ("for the chromatic scale without history the fraction lies in [0, 1) semitone" carries no range: outside
+  \* [0, 10] V only the clamped reading of the sum satisfies it)
+  \cup C19Tags(n, e.sk, e.fq, e.fq, IF inrange THEN e.eu ELSE Min2(e.eu, e.ec), TRUE, ~hist,
              hist /\ valid /\ n = last /\ (strict \/ ~(n >= 0 /\ n <= Top /\ Accept(allowed, uc, n))))
 
 TMeta == e.op = "meta" /\ UNCHANGED <<qVars, dead, prevU, edited, snap>> /\ l' = l + 1
